@@ -11,11 +11,8 @@ What is repo-owned and modelled here:
     the four keys `Tp-Status`, `Tp-Meta`, `Tp-BodyCodec`, `Tp-XferPipe` (`binHdr`; the struct variant
     sets only the first two, `structHdr`); the body as one thrift binary (after the transfer pipe) or,
     in the struct variant, written by the body value itself (`thrift.TStruct`);
-  * `string([]byte{m.BodyCodec()})` — the ONE-BYTE string holding the codec id (`codecStr`; fix THRIFT3)
-    — and `byte(codecID[0])` on the way back (`codecOf`); THeader key/value headers are length-prefixed
-    byte strings, so any byte travels.  Before the fix the value was `string(m.BodyCodec())`, a Go
-    conversion of a BYTE TO A STRING, i.e. the UTF-8 encoding of the code point (`codecStrOld`: two
-    bytes for ids ≥ 128, of which `codecOf` takes the lead byte 0xC2 / 0xC3);
+  * `string(m.BodyCodec())` — a Go conversion of a BYTE TO A STRING, i.e. the UTF-8 encoding of the code
+    point (`codecStr`: two bytes for ids ≥ 128) — and `byte(codecID[0])` on the way back (`codecOf`);
   * the write headers are a Go map that `ClearWriteHeaders` replaces and `SetWriteHeader` assigns into
     (`setHdr`), the read headers a map indexed with a missing key giving `""` (`getHdr`);
   * the counters: `Pack` zeroes the WRITE counter, the transport writes of the flush add to it and the
@@ -96,11 +93,8 @@ def typeOf (mtype : UInt8) : Nat :=
 /-- `readMessageBegin`'s switch (EXCEPTION is handled before): CALL, REPLY, ONEWAY and `default` → PUSH. -/
 def mtypeOf (t : Nat) : UInt8 := if t = 1 then 1 else if t = 2 then 2 else 3
 
-/-- Go `string([]byte{b})`: the one-byte string. -/
-def codecStr (c : UInt8) : Bytes := [c]
-
-/-- before fix THRIFT3: Go `string(b)` for a byte `b`, the UTF-8 encoding of the code point U+00bb. -/
-def codecStrOld (c : UInt8) : Bytes :=
+/-- Go `string(b)` for a byte `b`: the UTF-8 encoding of the code point U+00bb. -/
+def codecStr (c : UInt8) : Bytes :=
   if c < 128 then [c] else [(192 : UInt8) ||| (c >>> 6), (128 : UInt8) ||| (c &&& 63)]
 
 /-- `if codecID := headers[HeaderBodyCodec]; codecID != "" { m.SetBodyCodec(byte(codecID[0])) }`
